@@ -30,7 +30,10 @@ def _get(path, ch, f, stream_exp, nm):
     if path == "int_index":
         return [proj._scalar(ch[i]) for i in range(len(ch))], probs
     if path == "read_data_unscaled":
-        return proj.elems(ch.read_data(scaled=False)), probs
+        r = ch.read_data(scaled=False)
+        if isinstance(r, dict):          # DAQmx: dictionary of scaler id -> raw scaler data
+            r = r[0] if 0 in r else (np.array([], dtype=ch.dtype) if not r else r[sorted(r)[0]])
+        return proj.elems(r), probs
     if path == "raw_data":
         return proj.elems(ch.raw_data), probs
     if path == "chan_chunks":
@@ -74,7 +77,8 @@ def replay_access_case(case):
     shape = rec["shape"]
     fd, info = build_file2(shape, seed, case.get("variant", 0))
     e = enc.encode(fd, seed)
-    vals = {"x": e.values.get(X, [])[:rec["lenx"]], "y": e.values.get(Y, [])[:rec["leny"]]}
+    from .openfile import channel_values
+    vals = {"x": channel_values(e, X)[:rec["lenx"]], "y": channel_values(e, Y)[:rec["leny"]]}
     tys = {"x": info["xtype"], "y": info["ytype"]}
     streams = {"x": rec["chanx"], "y": rec["chany"]}
     fails = []
